@@ -69,7 +69,7 @@ func ValidateSchemaDocument(sd *SchemaDocument) (*Schema, error) {
 				}
 				schema.AddImplements(t, def)
 			}
-		case InputObject, Object:
+		case Object:
 			for _, intf := range def.Interfaces {
 				schema.AddPossibleType(intf, def)
 				schema.AddImplements(def.Name, schema.Types[intf])
